@@ -453,12 +453,17 @@ Print Assumptions C02_broadcast_pointwise_restricts_to_pwn.
         propagate_unary_shapes_ir (PropagateShapes.v, annotations only; true by C08's rule "same shape as the first input":
         Annot.first_input_shape_ops / Annot.unary_dataflow_ops_same_shape reused); rewrite_mul_sigmoid_as_swish_ir
         (SwishPass.v, from opset 24, with the observer conditions; hypothesis: Swish(x) = x * Sigmoid(x));
-        prune_unused_graph_inputs_ir (touches graph.inputs only: the identity on [ograph]; the interface side is C05).
+        prune_unused_graph_inputs_ir (touches graph.inputs only: the identity on [ograph]; the interface side is C05);
+        inline_dropout_training_mode_constants_ir (DropoutPass.v: Not(scalar True) feeding a Dropout's training_mode is
+        replaced EVERYWHERE by the initializer false_const, existing or created; hypotheses: Not negates a scalar boolean and
+        keeps the shape, Dropout's training_mode is a scalar, two scalar booleans with the same content are equal).
+        propagate_elementwise_shapes_ir (PropagateShapes.v: the non-rewired _refresh_elementwise_output_shape on the nodes of
+        ELEMENTWISE_BINARY_OPS; the declared broadcast is true by RefreshSound.broadcast_dims_bshape — the model of
+        _broadcast_shape_dims never contradicts the GENERAL numpy broadcast of the run-time operands).
         What remains a hypothesis, exactly:
           [unmodelled_ok U]  every function of UNMODELLED_RUNNERS (= the table minus the verified models, lemma
                              OptimizePipeline.unmodelled_exact) refines and keeps the graph admissible: name_fix, CSE,
-                             lift_constants_to_initializers, rewrite_mul_rsqrt_as_div, inline_dropout_training_mode_constants,
-                             propagate_elementwise_shapes, remove_dead_nodes — and remove_redundant_casts_ir (both entries): it
+                             lift_constants_to_initializers, rewrite_mul_rsqrt_as_div, remove_dead_nodes — and remove_redundant_casts_ir (both entries): it
                              IS verified, but over typed tensors (CastPass.v, ttensor/tteq); this theorem is over [tensor A]/teq,
                              and no embedding of ttensor into [tensor A] lets teq see the dtype of an EMPTY tensor;
           [refresh_ok]       the declared dims the two Transpose fold passes leave behind
@@ -468,23 +473,23 @@ Print Assumptions C02_broadcast_pointwise_restricts_to_pwn.
                              numpy broadcasting, CastLike, abstract ReduceMean with the permute/re-map law, integer vectors). *)
 From J2O Require Import OptGraph OptimizePipeline.
 Theorem C02_optimize_pipeline_sound :
-  forall (A : Type) sem F Fcl reduce denoteZ mkZ, opt_world A sem F Fcl reduce denoteZ mkZ ->
-  forall tshF tshT, refresh_ok A sem denoteZ addforest_step tshF -> refresh_ok A sem denoteZ transpose_pair_step tshT ->
-  forall fuel opset U, unmodelled_ok A sem denoteZ U ->
-  forall g e, kinds_ok_top tshF tshT fuel opset U g -> padm A sem denoteZ g e ->
+  forall (A : Type) sem F Fcl reduce denoteZ mkZ denoteB mkB, opt_world A sem F Fcl reduce denoteZ mkZ denoteB mkB ->
+  forall tshF tshT, refresh_ok A sem denoteZ denoteB addforest_step tshF -> refresh_ok A sem denoteZ denoteB transpose_pair_step tshT ->
+  forall fuel opset U, unmodelled_ok A sem denoteZ denoteB U ->
+  forall g e, kinds_ok_top tshF tshT fuel opset U g -> padm A sem denoteZ denoteB g e ->
   forall o, run (tensor A) sem (o_graph g) e = Some o ->
-  exists e' o', pext A denoteZ (optimize_top tshF tshT fuel opset U g) e e' /\ padm A sem denoteZ (optimize_top tshF tshT fuel opset U g) e' /\
+  exists e' o', pext A denoteZ denoteB (optimize_top tshF tshT fuel opset U g) e e' /\ padm A sem denoteZ denoteB (optimize_top tshF tshT fuel opset U g) e' /\
                 run (tensor A) sem (o_graph (optimize_top tshF tshT fuel opset U g)) e' = Some o' /\ Forall2 teq o o'.
 Proof. exact optimize_graph_sound. Qed.
 Print Assumptions C02_optimize_pipeline_sound.
 
 Theorem C02_optimize_pipeline_sound_function_bodies :
-  forall (A : Type) sem F Fcl reduce denoteZ mkZ, opt_world A sem F Fcl reduce denoteZ mkZ ->
-  forall tshF tshT, refresh_ok A sem denoteZ addforest_step tshF -> refresh_ok A sem denoteZ transpose_pair_step tshT ->
-  forall fuel opset U, unmodelled_ok A sem denoteZ U ->
-  forall g e, kinds_ok_body tshF tshT fuel opset U g -> padm A sem denoteZ g e ->
+  forall (A : Type) sem F Fcl reduce denoteZ mkZ denoteB mkB, opt_world A sem F Fcl reduce denoteZ mkZ denoteB mkB ->
+  forall tshF tshT, refresh_ok A sem denoteZ denoteB addforest_step tshF -> refresh_ok A sem denoteZ denoteB transpose_pair_step tshT ->
+  forall fuel opset U, unmodelled_ok A sem denoteZ denoteB U ->
+  forall g e, kinds_ok_body tshF tshT fuel opset U g -> padm A sem denoteZ denoteB g e ->
   forall o, run (tensor A) sem (o_graph g) e = Some o ->
-  exists e' o', pext A denoteZ (optimize_body tshF tshT fuel opset U g) e e' /\ padm A sem denoteZ (optimize_body tshF tshT fuel opset U g) e' /\
+  exists e' o', pext A denoteZ denoteB (optimize_body tshF tshT fuel opset U g) e e' /\ padm A sem denoteZ denoteB (optimize_body tshF tshT fuel opset U g) e' /\
                 run (tensor A) sem (o_graph (optimize_body tshF tshT fuel opset U g)) e' = Some o' /\ Forall2 teq o o'.
 Proof. exact optimize_graph_sound_function_bodies. Qed.
 Print Assumptions C02_optimize_pipeline_sound_function_bodies.
